@@ -23,7 +23,7 @@ fn spec() -> Spec {
             Kind { name: "continuity", quick: 500_000, thorough: 10_000_000, serial: false },
             Kind { name: "continuity_with_shape", quick: 3_000, thorough: 100_000, serial: false },
         ],
-        rule: "detection: non-degenerate robot (64 sign patterns, zero / right-angle / uniform offsets) x q with model angle t5 = k*pi + delta, k=-2..2, delta = +-{0,1e-9,0.5,0.9}*band (must be reported singular) or +-{1.1,2,100}*band (must not), band = 0.01 degree; expectation decided geometrically from the angle between the J4 axis and the J6 axis of the reference chain. continuity: t5 = 0 exactly, requested pose = FK(q); (1) previous = q: first continuation answer must equal q; (2) previous = q with J4,J6 shifted by (+e,-e'): an answer on the same arm with J5 at the singularity must have moved J4 and J6 by the same model-angle amount. Evaluated only when the arm sensitivity ||J_wc^-1||_F <= 3 rad/m and no other IK branch is within 0.02 rad of singular. non-trivial = conclusive case; distinct = hash(robot, q) Workload additions: clause 1c (CONSTRAINT_CENTERED with limits centred on q), clause 2b (previous J5 0.3..2 degrees outside the band); solvers built through either constructor; kind continuity_with_shape = clause 1 through KinematicsWithShape, 12 repeated calls per scene. Rounds 7-9: clause 1d (pose inside the band), 2c (previous J5 inside the band), postures upright in the X-Z plane; continuity clauses evaluated for arms of 0.3..12 m reach only.",
+        rule: "detection: non-degenerate robot (64 sign patterns, zero / right-angle / uniform offsets) x q with model angle t5 = k*pi + delta, k=-2..2, delta = +-{0,1e-9,0.5,0.9}*band (must be reported singular) or +-{1.1,2,100}*band (must not), band = 0.01 degree; expectation decided geometrically from the angle between the J4 axis and the J6 axis of the reference chain. continuity: t5 = 0 exactly, requested pose = FK(q); (1) previous = q: first continuation answer must equal q; (2) previous = q with J4,J6 shifted by (+e,-e'): an answer on the same arm with J5 at the singularity must have moved J4 and J6 by the same model-angle amount. Evaluated only when the arm sensitivity ||J_wc^-1||_F <= 3 rad/m and no other IK branch is within 0.02 rad of singular. non-trivial = conclusive case; distinct = hash(robot, q) Workload additions: clause 1c (CONSTRAINT_CENTERED with limits centred on q), clause 2b (previous J5 0.3..2 degrees outside the band); solvers built through either constructor; kind continuity_with_shape = clause 1 through KinematicsWithShape, 12 repeated calls per scene. Rounds 7-9: clause 1d (pose inside the band), 2c (previous J5 inside the band), postures upright in the X-Z plane; continuity clauses evaluated for arms of 0.3..12 m reach only. Round 10: clause 1f - the singular pose handed over with the negated quaternion.",
         assumptions: vec![
             "band edge: cases whose geometric deviation is within 1% of the band are not generated / inconclusive",
             "continuity tolerance 4*S + 1.5e-6 per joint with S = 1.25e-7 * ||J_wc^-1||_F (sensitivity of the arm to the solver's 0.125 um singularity shift) plus the solver's stated angular accuracy of 1e-6 rad",
@@ -293,6 +293,17 @@ fn continuity(idx: u64, rng: &mut Rng, mon: &mut Mon) {
         _ => {
             mon.count(&format!("continuity.fail1_bucket.{}", (sens.min(99.0)) as u64));
             mon.violation(&format!("continuity:first-answer-not-previous:signs46={}:{}", signs, off_class), "wrist-singular pose, previous realises it, but the first continuation answer is not the previous joints", detail("first-is-previous", &q, &sols, json!({"tolerance": s_tol})))
+        }
+    }
+    // clause 1f: the same pose handed over with the NEGATED quaternion (the other representative of the same rotation, as
+    // products of rotations across hemispheres or an axis-angle of angle - 2pi produce it): same answer
+    if rng.bool(0.5) {
+        let neg = nalgebra::Isometry3::from_parts(pose.translation, nalgebra::Unit::new_unchecked(-pose.rotation.into_inner()));
+        let sols = kin.inverse_continuing(&neg, &q);
+        mon.count("continuity.negated_quaternion");
+        match sols.first() {
+            Some(s) if (0..6).all(|j| (s[j] - q[j]).abs() <= s_tol) => mon.held(),
+            _ => mon.violation(&format!("continuity:first-answer-not-previous:negated-quaternion:signs46={}", signs), "wrist-singular pose given by the negated quaternion, previous realises it, but the first continuation answer is not the previous joints", detail("first-is-previous-negated-quaternion", &q, &sols, json!({"tolerance": s_tol}))),
         }
     }
     // clause 1b: the previous joints realise the pose through representatives wound by whole turns
